@@ -247,7 +247,7 @@ class Gen:
         n = r.choice([1, 2, 3, 5, 8, 13, 40])
         pools = ['abcXYZ 019_', '"\\', '\n\t\r\x00\x01\x08\x0c\x1f', '\x7f\x80\x9f\xa0\xe9\xff', '#/*(){};:%@-.']
         if wide:
-            pools.append('\u0100\u1234\u20ac\ud800\udfff\U0001F600\uffff')
+            pools.append('\u0100\u1234\u20ac\u2028\U0001F600\U0010FFFF\uffff')    # (no surrogates: not text, see docs/C18.md)
         w = [8, 2, 1, 1, 2] + ([2] if wide else [])
         return ''.join(r.choice(r.choices(pools, w)[0]) for _ in range(n))
 
@@ -462,6 +462,18 @@ def sweep():
         out.append(('sweep-string', [{'string': c + 'a'}, {'string': c + c}]))
     for i in list(range(-12, 13)) + [99, 100, 101, -99, -100, -101, 10 ** 18, -10 ** 18, 2 ** 64, -2 ** 64, 10 ** 50, -10 ** 50 - 1]:
         out.append(('sweep-int', P('Pair', [{'int': str(i)}, {'int': str(-i)}])))
+    # the line-width rule (line_size = 100): texts whose width crosses 99/100/101 in every branch of format_node
+    for k in range(70, 101):
+        s_k = {'string': 'a' * k}
+        out.append(('sweep-width', [s_k, {'int': '1'}]))                                   # sequence rule
+        out.append(('sweep-width', P('Pair', [s_k, {'int': '1'}, {'string': 'b'}])))         # several arguments
+        out.append(('sweep-width', P('IF', [[P('PUSH', [P('string'), s_k])], []])))          # is_complex rule
+        out.append(('sweep-width', P('PUSH', [P('pair', [P('string'), P('nat')]), P('Pair', [s_k, {'int': '1'}])])))  # is_inline
+        out.append(('sweep-width', [P('parameter', [P('unit')]), P('storage', [P('unit')]), P('code', [[P('PUSH', [P('string'), s_k])]])]))
+        out.append(('sweep-width', [P('DIP', [[P('DIP', [[P('PUSH', [P('string'), {'string': 'a' * (k - 20)}]), P('DROP')]])]])]))  # nested indentation
+        out.append(('sweep-width', P('LAMBDA', [P('unit'), P('unit'), [P('PUSH', [P('string'), {'string': 'a' * (k - 10)}])]])))
+        out.append(('sweep-width', [P('DIP', [[{'string': 'a' * (k - 12)}, P('DROP')]]), P('DROP')]))                # two-item sequence, indented
+        out.append(('sweep-width', P('Pair', [[{'string': 'a' * (k - 12)}, {'int': '1'}], P('Pair', [{'string': 'a' * (k - 30)}, {'int': '2'}, {'int': '3'}])])))
     for b in ['', '00', 'ff', '0001', 'deadbeef', 'DEADBEEF', 'aBcDeF09', '00' * 33]:
         out.append(('sweep-bytes', P('Pair', [{'bytes': b}, {'bytes': b}])))
         out.append(('sweep-bytes', {'bytes': b}))
@@ -909,7 +921,8 @@ def run(ctx: lib.Ctx) -> None:
     if os.environ.get('C18_ORACLE_ONLY') == '1':     # debugging aid for mutation triage: skip comparison (A)
         cases = []
     bad = ctx.coq_mismatches('c', IMPORTS, 'chk', 'Bool.eqb', 'ccase', 'bool', [(c, 'true') for c in cases],
-                             prelude=PRELUDE, shard=(500 if ctx.thorough else max(250, -(-len(cases) // 8))))
+                             prelude=PRELUDE, shard=(1200 if ctx.thorough else max(250, -(-len(cases) // 12))))
+    ctx.extra['correspondence_mismatches'] = len(bad)
     ctx.extra['cases_by_kind'] = {k: sum(1 for m in meta if m[0] == k) for k in ('table', 'fmt', 'txt')}
     ctx.extra['timing_s'] = {'expressions+oracle': round(t_expr - t_start, 1), 'texts': round(t_texts - t_expr, 1),
                              'coqc': round(time.time() - t_texts, 1)}
